@@ -25,6 +25,7 @@ EXPLANATION = (
     "Implicit exceptions in general (None dereference elsewhere, other KeyErrors, recursion limits) are not decided."
     " Added after seed round 7: E10 add_statement refuses statements and heads that are a Var, Constant, And or Not with a GroundingError (class tests evaluated on the Term hierarchy)."
     " Added after seed round 8: E11 consult registers the line table of a file before it loads the file."
+    " Added after seed round 9: E12 in the problog_export family no constructor value is derived from an argument list that a subclass constructor replaces afterwards (positive example matched on every run)."
 )
 TECHNIQUE = "static analysis: import resolution, exception-flow over resolved call graph, handler-coverage tables"
 
@@ -954,6 +955,128 @@ def rule_e11(repo, col):
                function="ClauseDB.consult")
 
 
+def _self_attr_reads(repo, cls, expr, depth=2, seen=None):
+    """attributes of self that the value of `expr` depends on: read directly, or read by a method of self that the expression calls (followed `depth` levels, resolved from `cls`)"""
+    seen = set() if seen is None else seen
+    out = set()
+    for x in ast.walk(expr):
+        if isinstance(x, ast.Attribute) and isinstance(x.value, ast.Name) and x.value.id == "self" and isinstance(x.ctx, ast.Load):
+            meth = repo.find_method(cls, x.attr)
+            if meth is None:
+                out.add(x.attr)
+            elif depth > 0 and meth.qualname not in seen:
+                seen.add(meth.qualname)
+                out |= _self_attr_reads(repo, cls, meth.node, depth - 1, seen)
+    return out
+
+
+def stale_derived_attributes(repo, classes):
+    """(subclass, init store, derived attribute, base class) where a base __init__ stores self.D computed from self.S and the __init__ of a subclass assigns self.S AFTER
+    it has run the base __init__ and does not compute self.D again: D keeps the value derived from the base's S"""
+    out = []
+    for sub in (classes if classes is not None else repo.classes):
+        init = sub.methods.get("__init__")
+        if init is None:
+            continue
+        body = list(init.node.body)
+        for i, st in enumerate(body):
+            calls = [c for c in ast.walk(st) if isinstance(c, ast.Call) and isinstance(c.func, ast.Attribute) and c.func.attr == "__init__"]
+            if not calls:
+                continue
+            for base in repo.mro(sub)[1:]:
+                if not hasattr(base, "methods") or "__init__" not in base.methods:
+                    continue
+                derived = {}
+                for b in walk_no_nested(base.methods["__init__"].node):
+                    if isinstance(b, ast.Assign) and len(b.targets) == 1 and isinstance(b.targets[0], ast.Attribute) and norm(b.targets[0].value) == "self":
+                        derived[b.targets[0].attr] = _self_attr_reads(repo, sub, b.value)
+                later = [x for stl in body[i + 1:] for x in ast.walk(stl) if isinstance(x, ast.Assign)]
+                restored = {t.attr for x in later for t in x.targets if isinstance(t, ast.Attribute) and norm(t.value) == "self"}
+                for x in later:
+                    for t in x.targets:
+                        if isinstance(t, ast.Attribute) and norm(t.value) == "self":
+                            for d, deps in sorted(derived.items()):
+                                if t.attr in deps and d != t.attr and d not in restored:
+                                    out.append((sub, x, d, t.attr, base))
+                break
+    return out
+
+
+class _MiniRepo(object):
+    """just enough of the index (mro, find_method) over one source text, for the positive example"""
+
+    class _C(object):
+        pass
+
+    def __init__(self, src):
+        self.classes = []
+        byname = {}
+        for n in ast.parse(src).body:
+            if isinstance(n, ast.ClassDef):
+                c = self._C()
+                c.name, c.node = n.name, n
+                c.bases = [byname[norm(b)] for b in n.bases if norm(b) in byname]
+                c.methods = {}
+                for f in n.body:
+                    if isinstance(f, ast.FunctionDef):
+                        mi = self._C()
+                        mi.node, mi.qualname = f, "%s.%s" % (n.name, f.name)
+                        c.methods[f.name] = mi
+                byname[n.name] = c
+                self.classes.append(c)
+
+    def mro(self, c):
+        out = [c]
+        for b in c.bases:
+            out += self.mro(b)
+        return out
+
+    def find_method(self, c, name):
+        for k in self.mro(c):
+            if name in k.methods:
+                return k.methods[name]
+        return None
+
+
+_STALE_SELFTEST = """
+class B:
+    def __init__(self, xs):
+        self.items = list(xs)
+        self.modes = list(self._modes())
+
+    def _modes(self):
+        return [len(self.items)]
+
+
+class D(B):
+    def __init__(self, xs):
+        B.__init__(self, xs)
+        self.items = list(xs) + [0]
+"""
+
+
+def rule_e12(repo, col):
+    """problog_export and its subclasses: what the mode check compares a call against is derived from the declared argument lists AS THE SUBCLASS LEAVES THEM (problog_export_raw
+    replaces input_arguments after the base constructor ran) - a value the base constructor derived from them and nobody recomputes describes the wrong argument list"""
+    pos = stale_derived_attributes(_MiniRepo(_STALE_SELFTEST), None)
+    if len(pos) != 1 or pos[0][2] != "modes":
+        raise AnalysisError("stale-derived-attribute rule does not fire on its positive example")
+    m = repo.module("problog.extern")
+    base = repo.cls("problog.extern", "problog_export")
+    family = [c for c in repo.all_classes() if any(isinstance(b, ClassInfo) and b.fullname == base.fullname for b in repo.mro(c))]
+    if len(family) < 3:
+        raise AnalysisError("problog_export family not found")
+    bad = stale_derived_attributes(repo, family)
+    for sub, st, d_, s_, b_ in bad:
+        col.fail("E12", sub.module, st, "%s.__init__ replaces self.%s after %s.__init__ has already derived self.%s from it: the mode check of a builtin declared with %s then compares the "
+                 "call with the argument list of the base class, arguments beyond it are not type-checked and an ill-typed call reaches the conversion code "
+                 "(AttributeError: 'int' object has no attribute 'strip' instead of CallModeError)" % (sub.name, s_, b_.name, d_, sub.name),
+                 construct="%s.__init__: self.%s derived before self.%s is final" % (sub.name, d_, s_), function="%s.__init__" % sub.name)
+    if not bad:
+        col.ok("E12", m, base.node, "%d classes of the problog_export family: no constructor value is derived from an argument list that a subclass replaces afterwards" % len(family),
+               construct="problog_export family: derived constructor values", function="problog_export.__init__")
+
+
 def run(repo, col):
     col.rule("E9", "no contradictory key beliefs about a local dictionary (.get here, [k] there)")
     col.rule("E8", "the error-location formatter tolerates locations without an offset")
@@ -977,3 +1100,5 @@ def run(repo, col):
     rule_e10(repo, col)
     col.rule("E11", "consult registers the line table before loading")
     rule_e11(repo, col)
+    col.rule("E12", "export decorators: nothing derived from an argument list that a subclass constructor replaces later")
+    rule_e12(repo, col)
